@@ -7,11 +7,7 @@ EXTENDS WalletLedger, Json, IOUtils
 TreesJ == JsonDeserialize(IOEnv.TREES)
 
 TripleSet(s) == {<<s[i][1], s[i][2], s[i][3]>> : i \in 1..Len(s)}
-EvSet(s) == {s[i] : i \in 1..Len(s)}
-FixTree(tr) == [tr EXCEPT !.wc = [b \in 1..tr.n |-> TripleSet(tr.wc[b])],
-                          !.ws = [b \in 1..tr.n |-> TripleSet(tr.ws[b])],
-                          !.we = [b \in 1..tr.n |-> EvSet(tr.we[b])]]
-TreesC == [i \in 1..Len(TreesJ) |-> FixTree(TreesJ[i])]
+TreesC == TreesJ
 
 StateRec == [t |-> t, mem |-> mem, wTip |-> wTip, utxo |-> wUtxo, ev |-> wEv, ok |-> wOk]
 
